@@ -256,7 +256,7 @@ pub fn gen_vm_job(rng: &mut Rng) -> Option<GenJob> {
 /// A job on a member of the build-time grammar family: through the GENERATED parser, or (same
 /// grammar text, same rule, same input) through the VM.
 pub fn gen_family_job(rng: &mut Rng, derive: bool) -> GenJob {
-    let index = rng.below(parsework::family::FAMILY);
+    let index = rng.below(parsework::family::FAMILY_GENERATED);
     let g = parsework::family::ast(index);
     let start = if rng.chance(2, 3) { 0 } else { rng.below(g.rules.len()) };
     let input = gen::gen_input(rng, &g, start, 16);
@@ -377,7 +377,9 @@ pub fn run_c12(a: &WorkerArgs) -> Out {
         }
         let mut rng = Rng::stream(prng::run_seed(a.seed, "C12-corpus", c as u64), "sweep");
         let mut s = c12::SweepStats::default();
-        match c12::sweep(job, 200_000, max_ex, &mut rng, &mut s) {
+        // scale jobs (long inputs, deep nesting) with a moderate call count are always swept
+        // exhaustively: the interesting limits are few and sparse
+        match c12::sweep(job, 200_000, max_ex.max(2600), &mut rng, &mut s) {
             Ok(v) => {
                 sweeps += 1;
                 bump(&mut backends, job.backend.name());
